@@ -87,3 +87,54 @@ pub fn prune_select(v: &Value) -> Value {
     let _ = std::fs::remove_dir_all(&dir);
     json!({"selected": m, "kept": kept, "touched": touched})
 }
+
+/// K4: {kinds: [...], files: [...], initial: bool}: all_ai_touched_files and the pre-commit early exit on a real repository
+pub fn pre_commit_skip(v: &Value) -> Value {
+    let (dir, _) = scratch();
+    let git = |args: &[&str]| {
+        let o = std::process::Command::new("git")
+            .args(args)
+            .current_dir(&dir)
+            .env("GIT_AUTHOR_NAME", "v")
+            .env("GIT_AUTHOR_EMAIL", "v@v")
+            .env("GIT_COMMITTER_NAME", "v")
+            .env("GIT_COMMITTER_EMAIL", "v@v")
+            .output()
+            .unwrap();
+        assert!(o.status.success(), "git {:?}: {}", args, String::from_utf8_lossy(&o.stderr));
+        String::from_utf8_lossy(&o.stdout).trim().to_string()
+    };
+    std::fs::write(dir.join("a"), "x\n").unwrap();
+    std::fs::write(dir.join("b"), "y\n").unwrap();
+    git(&["add", "-A"]);
+    git(&["commit", "-q", "-m", "c1"]);
+    let head = git(&["rev-parse", "HEAD"]);
+    // pending work in both files
+    std::fs::write(dir.join("a"), "x\nmore\n").unwrap();
+    std::fs::write(dir.join("b"), "y\nmore\n").unwrap();
+    let repo = git_ai::git::find_repository_in_path(dir.to_str().unwrap()).expect("repo");
+    let wl = repo.storage.working_log_for_base_commit(&head);
+    let kinds: Vec<&str> = v["kinds"].as_array().unwrap().iter().map(|k| k.as_str().unwrap()).collect();
+    let files: Vec<&str> = v["files"].as_array().unwrap().iter().map(|k| k.as_str().unwrap()).collect();
+    let mut cks = Vec::new();
+    for (i, (k, f)) in kinds.iter().zip(files.iter()).enumerate() {
+        let la = if *k == "Human" { vec![] } else { vec![LineAttribution::new(1, 1, "s1".into(), None)] };
+        let e = WorkingLogEntry::new(f.to_string(), format!("b{i}"), vec![], la);
+        cks.push(Checkpoint::new(kind(k), "d".into(), "x".into(), vec![e]));
+    }
+    wl.write_all_checkpoints(&cks).unwrap();
+    if v["initial"].as_bool().unwrap_or(false) {
+        let mut m = std::collections::HashMap::new();
+        m.insert("a".to_string(), vec![LineAttribution::new(1, 1, "s0".into(), None)]);
+        wl.write_initial_attributions(m, std::collections::HashMap::new()).unwrap();
+    }
+    let mut touched: Vec<String> = wl.all_ai_touched_files().map(|s| s.into_iter().collect()).unwrap_or_default();
+    touched.sort();
+    let r = git_ai::commands::checkpoint::run(&repo, "user", CheckpointKind::Human, false, false, true, None, true);
+    let out = match r {
+        Ok((a, b, c)) => json!({"ok": true, "result": [a, b, c]}),
+        Err(e) => json!({"ok": false, "error": e.to_string()}),
+    };
+    let _ = std::fs::remove_dir_all(&dir);
+    json!({"touched": touched, "run": out})
+}
